@@ -199,35 +199,35 @@ type cnode struct {
 }
 
 type cluster struct {
-	rng      *rand.Rand
-	h        *hist
-	nodes    []*cnode
-	inj      *raft.InmemTransport
-	mu       sync.Mutex
-	blocked  map[[2]int]bool // directed pairs that drop everything
-	holdMs   map[[2]int]int  // responses on this directed pair (responder, requester) are held this long
-	litmus   bool
-	hbLong   bool
-	verySlow bool // the slow-clock server is slower still
-	batchCh  bool // buffered apply channel (BatchApplyCh)
-	autoSnap bool // automatic snapshots (short interval, low threshold)
-	trailing uint64
-	maxAE    int
-	noPV     map[int]bool // servers running with pre-vote disabled
-	legacy   bool         // the network strips ID and Addr from AppendEntries / InstallSnapshot headers (a leader of an older release: only the deprecated Leader field names it)
-	codes    map[int]int  // result code per finished call
-	dbgLines []string
-	lastTransfer int // virtual ms of the latest leadership-transfer call (-1: none)
-	pv2      bool // every server runs protocol version 2
-	track    bool // commit-tracking log stores with RestoreCommittedLogs
-	slowFSM  bool // some FSMs take a few virtual ms per Apply
-	delayMs  int
-	dropPct  int
-	dupPct   int
-	wg       sync.WaitGroup
-	pay      int
-	calls    int
-	stopped  bool
+	rng          *rand.Rand
+	h            *hist
+	nodes        []*cnode
+	inj          *raft.InmemTransport
+	mu           sync.Mutex
+	blocked      map[[2]int]bool // directed pairs that drop everything
+	holdMs       map[[2]int]int  // responses on this directed pair (responder, requester) are held this long
+	litmus       bool
+	hbLong       bool
+	verySlow     bool // the slow-clock server is slower still
+	batchCh      bool // buffered apply channel (BatchApplyCh)
+	autoSnap     bool // automatic snapshots (short interval, low threshold)
+	trailing     uint64
+	maxAE        int
+	noPV         map[int]bool // servers running with pre-vote disabled
+	legacy       bool         // the network strips ID and Addr from AppendEntries / InstallSnapshot headers (a leader of an older release: only the deprecated Leader field names it)
+	codes        map[int]int  // result code per finished call
+	dbgLines     []string
+	lastTransfer int64 // virtual ms of the latest leadership-transfer call (-1: none)
+	pv2          bool  // every server runs protocol version 2
+	track        bool  // commit-tracking log stores with RestoreCommittedLogs
+	slowFSM      bool  // some FSMs take a few virtual ms per Apply
+	delayMs      int
+	dropPct      int
+	dupPct       int
+	wg           sync.WaitGroup
+	pay          int
+	calls        int
+	stopped      bool
 }
 
 // idIsAddr: protocol version 2 requires a server's ID to be its address (set per case)
